@@ -64,7 +64,7 @@ def main():
             "C02": ("cli_cascade", "CliCascadeSrc", "CliCascadeP", "toasty/cli.py (cascade_impl)", "model of the command (Model/CliScript.v)"),
             "C03": ("cli_transform", "CliTransformSrc", "CliTransformP", "toasty/cli.py (transform_impl)", "model of the command (Model/CliScript.v)"),
             "C11": ("cli_allsky", "CliAllskySrc", "CliAllskyP", "toasty/cli.py (tile_allsky_impl)", "model of the command (Model/CliScript.v)"),
-            "C20": ("cli_multi_tan", "CliMultiTanSrc", "CliMultiTanP", "toasty/cli.py (tile_multi_tan_impl)", "model of the command (Model/CliScript.v)")}
+            "C20": ("cli_multi_tan", "CliMultiTanSrc", "CliMultiTanP", "toasty/cli.py (tile_multi_tan_impl, view_locally)", "models of the commands (Model/CliScript.v)")}
     if pid in TIES:
         import hashlib
         import py2coq
@@ -79,7 +79,7 @@ def main():
                      "paths": ["PyramidIO." + m for m in py2coq.PATH_METHODS],
                      "script": ["FitsTiler._tile_toast"], "cli_cascade": ["cli.cascade_impl"],
                      "cli_transform": ["cli.transform_impl"], "cli_allsky": ["cli.tile_allsky_impl"],
-                     "cli_multi_tan": ["cli.tile_multi_tan_impl"]}[which]
+                     "cli_multi_tan": ["cli.tile_multi_tan_impl", "cli.view_locally"]}[which]
             translated = dict(source=srcname, functions=funcs, sha256=hashlib.sha256(text.encode()).hexdigest()[:16])
             tree_file = common.COQ / "theories" / "Generated" / (gen + ".v")
             if not tree_file.exists() or tree_file.read_text() != text:
